@@ -57,11 +57,12 @@ def check(prop: str, tier: str, root: str = REPO, evidence: bool = True) -> int:
             st_error = e
     extra = None
     if tier == "thorough" and st_error is None and not new:
-        from .selftest import seeded_regression
+        from .selftest import benign_regression, seeded_regression
 
         try:
             sr = seeded_regression(prog, prop, lambda p: run_rules_on(p, prop, mod, tier, check_floors=False).findings, ctx.findings)
             extra = {"seeded_regression": sr}
+            extra["benign_regression"] = benign_regression(prog, prop, lambda p: run_rules_on(p, prop, mod, tier, check_floors=False).findings, ctx.findings)
         except AnalysisError as e:
             st_error = e
     if tier == "thorough" and hasattr(mod, "thorough"):
@@ -82,6 +83,7 @@ def check(prop: str, tier: str, root: str = REPO, evidence: bool = True) -> int:
         f"{wall:.2f}s"
         + (f"; self-test variants applied {selftest['variants_applied']}, skipped {selftest['variants_skipped']}" if selftest else "")
         + (f"; seeded changes re-applied {extra['seeded_regression']['applied']} (reported {extra['seeded_regression']['reported']}, skipped {extra['seeded_regression']['skipped']})" if extra and "seeded_regression" in extra else "")
+        + (f"; benign refactorings re-applied {extra['benign_regression']['applied']} (silent {extra['benign_regression']['silent']}, skipped {extra['benign_regression']['skipped']})" if extra and "benign_regression" in extra else "")
     )
     if selftest:
         for d in selftest["details"]:
